@@ -347,6 +347,9 @@ class Executor:
 
     def _clear_shared_memory(self, app_id: int) -> None:
         self._shared_memories.pop(app_id)
+        # Also release the globally registered memory, such that the same
+        # application ID can be registered again on this node.
+        SharedMemoryManager._MEMORIES.pop((self._name, app_id), None)
 
     def _reset_program_counter(self, subroutine_id: int) -> None:
         """Resets the program counter for a given subroutine ID"""
